@@ -1,6 +1,7 @@
 """Reference for the shape of an exported RDF graph (C10).  Uses rdflib's triple API only; the
 namespace and predicate names are hard-coded copies, not imports from odml.format."""
 import datetime as dt
+import enum
 
 NS = "https://g-node.org/odml-rdf#"
 RDF = "http://www.w3.org/1999/02/22-rdf-syntax-ns#"
@@ -25,6 +26,8 @@ def _same(lit, value):
         py = lit.toPython()
     except Exception:
         return False
+    if isinstance(value, enum.Enum) and isinstance(value, str):
+        value = value.value         # a dtype given as DType member stands for its type name
     if isinstance(value, (list, tuple)):
         # an odML n-tuple has no RDF counterpart: its text form "(a;b)" is the faithful literal
         return isinstance(py, str) and py == "(" + ";".join(value) + ")"
